@@ -35,6 +35,8 @@ if '--write' in sys.argv:
     j = s.index('### Known findings (not repaired)')
     head = '### Repaired (%d commits in /repo, oldest first)\n\nGenerated from `known_findings.json` by `tools/findings_table.py`; several entries of one commit are joined by `//`.\n\n' % len(fixes)
     s = s[:i] + head + table + '\n' + s[j:]
-    s = re.sub(r'\d+ genuine defects were repaired in `/repo` by \d+ small `fix:` commits', '%d genuine defects were repaired in `/repo` by %d small `fix:` commits' % (ndefects, len(fixes)), s)
+    s = re.sub(r'by \d+ small `fix:` commits \(\d+ violation\nfingerprints, §12\) and \d+ are recorded as known findings \(\d+ fingerprints',
+               'by %d small `fix:` commits (%d violation\nfingerprints, §12) and %d are recorded as known findings (%d fingerprints' % (
+                   len(fixes), ndefects, len({f['what'][:40] for f in known}), len(known)), s)
     open(p, 'w').write(s)
     print('written')
